@@ -38,7 +38,7 @@ Definition ev_eqb {K} (keq : K -> K -> bool) (a b : ev K) : bool :=
 Definition exn_eqb (a b : exn) : bool :=
   match a, b with
   | XInvalid, XInvalid | XTypeError, XTypeError | XKeyError, XKeyError | XNotFound, XNotFound
-  | XDuplicate, XDuplicate => true
+  | XDuplicate, XDuplicate | XBoom, XBoom => true
   | _, _ => false
   end.
 Definition outcome_eqb (a b : outcome) : bool :=
